@@ -67,6 +67,10 @@ func (o *pOutput) Write(p []byte) (int, error) {
 	o.mu.Lock()
 	if o.fault != nil && o.faultLeft > 0 && bytes.Contains(p, []byte(o.fault.Match)) {
 		o.faultLeft--
+		if o.fault.Panic {
+			o.mu.Unlock()
+			panic("scenario panic in the output writer")
+		}
 		if o.fault.DelayUs > 0 {
 			// a slow terminal: the bytes arrive, but the Write call takes this long
 			o.mu.Unlock()
